@@ -26,8 +26,11 @@
      the harness encodes in the payload;
    - `tokio::select!{async_rx, sync_rx}` is a nondeterministic merge: the choice for each pop comes
      from a hint list (any list; the harness fills in what the implementation did);
-   - tokio's cooperative budget is the `budget` argument of a handle poll: the number of channel
-     receives after which poll_recv returns Pending — the preemption point of the user task. *)
+   - tokio's cooperative budget is the `budget` argument of a handle poll and of a Connection poll:
+     the number of channel operations (receives, permit acquisitions) after which every further one
+     returns Pending — the preemption point of the task. A Connection poll that is cut short this way
+     stops after some pops of its outbound loop, or before it collects the slot of the handle channel;
+     close_connection is atomic (the harness polls a Connection that has begun to close until it is done). *)
 From Coq Require Import List NArith Bool.
 From V.gen Require Consts.
 Import ListNotations.
@@ -235,10 +238,11 @@ Definition wclosed (s : st) (y : bool) : bool :=
   (e_per (ec (gep s y)) =? per s) && negb (e_alive (ec (gep s y))).
 
 (* The outbound part of one poll_next of Connection x: outbound loop and flush; permits freed by
-   the pops go to the waiting async senders. The bool says that start_send refused a notification. *)
-Definition out_phase (c : cfg) (x : bool) (s : st) : st * bool :=
+   the pops go to the waiting async senders. The bool says that start_send refused a notification.
+   Every pop from a queue costs one unit of the budget b; with none left the select! is Pending. *)
+Definition out_phase (c : cfg) (x : bool) (b : N) (s : st) : st * bool :=
   let e := gep s x in let cn := ec e in let h := eh e in let lo := glo s x in
-  let fuel := S (opt_len (e_cur cn) + length (e_sq cn) + length (e_aq cn)) in
+  let fuel := (opt_len (e_cur cn) + N.to_nat (N.min b (len (e_sq cn) + len (e_aq cn) + 1)))%nat in
   let '(closed, L) := a_loop fuel (c_max (ecf c x)) (wgate lo)
                         (mkLst (e_cur cn) (e_sq cn) (e_aq cn) (e_sk cn) (carrier lo) (e_hints cn) (bad s)) in
   if closed then
@@ -252,6 +256,9 @@ Definition out_phase (c : cfg) (x : bool) (s : st) : st * bool :=
     let h1 := mkH (rebalance (ecf c x) cn1 (e_ws h)) (e_nq h) (e_evs h) (e_peers h) (e_clog h) (e_cmds h) in
     let s1 := slo (sep s x (mkEp cn1 h1 (eg e))) x (mkL (wgate lo) (rgate lo) ca) in
     (mkSt (per s1) (killed s1) (sA s1) (sB s1) (lAB s1) (lBA s1) (nyes s1) (l_bad L) (later_hints s1), false).
+
+(* notifications in the two queues of x *)
+Definition qlen (s : st) (x : bool) : N := len (e_sq (ec (gep s x))) + len (e_aq (ec (gep s x))).
 
 (* Connection x can take (or holds) a slot of its user channel *)
 Definition can_reserve (c : cfg) (x : bool) (s : st) : bool :=
@@ -268,30 +275,42 @@ Definition push_nq (x : bool) (n : notif) (s : st) : st :=
   sep s x (mkEp (mkC (e_alive cn) (e_per cn) (e_shut cn) (e_sq cn) (e_aq cn) (e_cur cn) (e_sk cn) (e_hints cn) false false)
                 (mkH (e_ws h) (e_nq h ++ [n]) (e_evs h) (e_peers h) (e_clog h) (e_cmds h)) (eg e)).
 
-(* One poll of the task `Connection::start` of x: poll_next until Pending or close. *)
-Fixpoint conn_loop (fuel : nat) (c : cfg) (x : bool) (s : st) : st :=
+(* PollSender::poll_reserve with budget b. Returns the state, whether a slot is held afterwards, and
+   the budget left. A permit that was handed to the queued waiter (res && rwait) still has to be
+   collected by polling the Acquire future, which costs budget like a fresh acquisition. *)
+Definition reserve_phase (c : cfg) (x : bool) (b : N) (s : st) : st * bool * N :=
+  let cn := ec (gep s x) in
+  if e_res cn && negb (e_rwait cn) then (s, true, b)
+  else if can_reserve c x s then
+    (if 0 <? b then (set_res x true false s, true, b - 1) else (s, false, b))
+  else (if 0 <? b then (set_res x false true s, false, b) else (s, false, b)).
+
+(* One poll of the task `Connection::start` of x under budget b: poll_next until Pending or close. *)
+Fixpoint conn_loop (fuel : nat) (c : cfg) (x : bool) (b : N) (s : st) : st :=
   match fuel with
   | O => s
   | S f =>
-      if e_shut (ec (gep s x)) then close x false s else
+      (* the oneshot receiver is a tokio resource too: with no budget left it reports Pending *)
+      if e_shut (ec (gep s x)) && (0 <? b) then close x false s else
       (* every write and flush fails on a killed transport *)
       if killed s then close x true s else
-      let '(s1, refused) := out_phase c x s in
+      let '(s1, refused) := out_phase c x b s in
       if refused then close x true s1 else
-      if negb (can_reserve c x s1) then set_res x false true s1 else
-      let s2 := set_res x true false s1 in
+      let b1 := b - (qlen s x - qlen s1 x) in
+      let '(s2, go, b2) := reserve_phase c x b1 s1 in
+      if negb go then s2 else
       let li := glo s2 (negb x) in
       if negb (rgate li) then s2 else
       match carrier li with
       | [] => if wclosed s2 (negb x) then close x true s2 else s2
       | n :: rest =>
           if c_max (ecf c x) <? n_len n then close x true s2
-          else conn_loop f c x (push_nq x n (slo s2 (negb x) (mkL (wgate li) (rgate li) rest)))
+          else conn_loop f c x b2 (push_nq x n (slo s2 (negb x) (mkL (wgate li) (rgate li) rest)))
       end
   end.
 
-Definition conn_poll (c : cfg) (x : bool) (s : st) : st :=
-  if e_alive (ec (gep s x)) then conn_loop (S (length (carrier (glo s (negb x))))) c x s else s.
+Definition conn_poll (c : cfg) (x : bool) (b : N) (s : st) : st :=
+  if e_alive (ec (gep s x)) then conn_loop (S (length (carrier (glo s (negb x))))) c x b s else s.
 
 (* ---- NotificationHandle::poll_next with a cooperative budget ---- *)
 Inductive uev := UPending | UOpened (k : N) | UClosed | UNotif (n : notif).
@@ -314,9 +333,10 @@ Fixpoint h_scan (fixed : bool) (peers : option N) (budget : nat) (q : list notif
   | S b, n :: t => if passes fixed peers n then (Some n, t) else h_scan fixed peers b t
   end.
 
-(* the Connection parked in poll_reserve is first in line for the slot freed by a receive *)
+(* the Connection parked in poll_reserve is first in line for the slot freed by a receive: the permit is
+   handed to its queued Acquire future (res && rwait), which collects it on its next poll *)
 Definition hand_over (x : bool) (popped : bool) (s : st) : st :=
-  if popped && e_rwait (ec (gep s x)) then set_res x true false s else s.
+  if popped && e_rwait (ec (gep s x)) && negb (e_res (ec (gep s x))) then set_res x true true s else s.
 
 Definition h_poll_gen (fixed : bool) (c : cfg) (x : bool) (budget : N) (s : st) : st * uev :=
   let e := gep s x in let h := eh e in let g := eg e in
@@ -446,7 +466,7 @@ Inductive step :=
 | SAsyncStart (x : bool) (id tag ln : N)
 | SAsyncPoll (x : bool) (id : N)
 | SAsyncDrop (x : bool) (id : N)
-| SConn (x : bool)
+| SConn (x : bool) (budget : N)
 | SHandle (x : bool) (budget : N)
 | SOpen (x : bool)
 | SClose (x : bool)
@@ -463,7 +483,7 @@ Definition do_step (c : cfg) (s : st) (t : step) : st * res :=
   | SAsyncStart x id tag ln => let '(s1, r) := async_start c x s id tag ln in (s1, RCode r)
   | SAsyncPoll x id => let '(s1, r) := async_poll x s id in (s1, RCode r)
   | SAsyncDrop x id => let '(s1, r) := async_drop c x s id in (s1, RCode r)
-  | SConn x => let s1 := conn_poll c x s in (s1, RCode (if e_alive (ec (gep s1 x)) then 0 else 1))
+  | SConn x b => let s1 := conn_poll c x b s in (s1, RCode (if e_alive (ec (gep s1 x)) then 0 else 1))
   | SHandle x b => let '(s1, e) := h_poll c x b s in (s1, RUser e)
   | SOpen x => let '(s1, r) := open_stream x s in (s1, RCode r)
   | SClose x =>
@@ -517,21 +537,23 @@ Fixpoint poll_ids (x : bool) (ids : list N) (s : st) (prog : bool) : st * bool :
 Definition poll_woken (x : bool) (s : st) : st * bool :=
   poll_ids x (woken_ids (ec (gep s x)) (e_ws (eh (gep s x)))) s false.
 
+Definition BIG : N := 1000000.
+
 (* a Connection parked in poll_reserve is woken only by its user channel or the shutdown signal *)
 Definition b_woken (c : cfg) (s : st) : bool :=
   let cn := ec (gep s false) in e_alive cn && (e_shut cn || can_reserve c false s).
-Definition poll_b (c : cfg) (s : st) : st := if b_woken c s then conn_poll c false s else s.
+Definition poll_b (c : cfg) (s : st) : st := if b_woken c s then conn_poll c false BIG s else s.
 
 Fixpoint rounds (fuel : nat) (c : cfg) (s : st) : st :=
   match fuel with
   | O => s
   | S f =>
-      let s1 := conn_poll c true s in
+      let s1 := conn_poll c true BIG s in
       let '(s2, prog) := poll_woken true s1 in
       let s3 := poll_b c s2 in
       if prog then rounds f c s3
       else if e_alive (ec (gep s3 true)) && wclosed s3 false
-           then fst (poll_woken true (conn_poll c true s3)) else s3
+           then fst (poll_woken true (conn_poll c true BIG s3)) else s3
   end.
 
 Definition settle (c : cfg) (s : st) : st :=
@@ -552,8 +574,6 @@ Inductive ares :=
 | ACode (x : N)
 | AUser (e : uev)
 | AEvents (l : list hev).
-
-Definition BIG : N := 1000000.
 
 Fixpoint drain_a (c : cfg) (fuel : nat) (s : st) (acc : list hev) : st * list hev :=
   match fuel with
